@@ -121,7 +121,7 @@ var versionTexts = []string{
 
 func main() {
 	o := vh.ParseFlags()
-	res := vh.NewResult("types: exhaustive over the alphabet {a,0,-,_,+,v} up to length 6 (7 in thorough) plus random longer ones, each valid type printed with every version of a pool (incl. prereleases/metadata containing -v<digit>) and parsed back through hint.NewHint/String/ParseHint/IsValid; Version.Compare on all pairs of a pool of tricky versions against x/mod semver precedence; random Add/Find/FindByString/FindBytType/FindBytTypeString histories on the real CompatibleSet against a cache-free reference; non-trivial = valid type (round trip), differing versions (compare), a lookup whose type and major are registered (set)")
+	res := vh.NewResult("types: exhaustive over the alphabet {a,0,-,_,+,v} up to length 6 (7 in thorough) plus random longer ones, each valid type printed with every version of a pool (incl. prereleases/metadata containing -v<digit>) and parsed back through hint.NewHint/String/ParseHint/IsValid; Version.Compare on all pairs of a pool of tricky versions against x/mod semver precedence; random Add/Find/FindByString/FindBytType/FindBytTypeString histories on the real CompatibleSet against a cache-free reference (sparse ones over 3 types x 18 versions, and dense ones of 40-60 ops over 1-2 types x majors 1..3 x minors 0..2 where the next operation often reuses the previous hint); non-trivial = valid type (round trip), differing versions (compare), a lookup whose type and major are registered (set)")
 	r := vh.NewRand(o.Seed)
 	cases := &vh.Cases{Import: "From MV Require Import C31.Model.", Type: "case", CheckFn: "check", Shard: 400}
 
@@ -346,6 +346,12 @@ func main() {
 		{{Op: "find", Type: "abc", Ver: "v1.2.0"}, {Op: "add", Type: "abc", Ver: "v1.5.0", Value: 1}, {Op: "find", Type: "abc", Ver: "v1.2.0"}, {Op: "findstr", S: " abc-v1 "}, {Op: "findstr", S: "abc-v1"}, {Op: "add", Type: "abc", Ver: "v1.5.0", Value: 9}, {Op: "add", Type: "abc", Ver: "v1.5.0+m", Value: 9}, {Op: "find", Type: "abc", Ver: "v1.9.9"}},
 		{{Op: "add", Type: "abc", Ver: "v1.0.0-1.12", Value: 1}, {Op: "add", Type: "abc", Ver: "v1.0.0-1.13", Value: 2}, {Op: "find", Type: "abc", Ver: "v1.0.0"}, {Op: "add", Type: "abc", Ver: "v2.0.0", Value: 3}, {Op: "findtype", S: "abc"}, {Op: "findtypestr", S: "abc"}, {Op: "findtypestr", S: "ABC"}, {Op: "findtypestr", S: "ABC"}},
 	}
+	corpus = append(corpus,
+		// stale cache across majors: the head is per type, entries are per (type, major)
+		[]setOp{{Op: "add", Type: "showme", Ver: "v2.0.0", Value: 1}, {Op: "find", Type: "showme", Ver: "v1.0.0"}, {Op: "add", Type: "showme", Ver: "v1.0.0", Value: 2}, {Op: "find", Type: "showme", Ver: "v1.0.0"}},
+		[]setOp{{Op: "add", Type: "showme", Ver: "v1.0.0", Value: 1}, {Op: "add", Type: "showme", Ver: "v2.0.0", Value: 2}, {Op: "find", Type: "showme", Ver: "v1.0.0"}, {Op: "add", Type: "showme", Ver: "v1.1.0", Value: 3}, {Op: "find", Type: "showme", Ver: "v1.0.0"}, {Op: "findstr", S: "showme-v1.0.0"}},
+		[]setOp{{Op: "add", Type: "showme", Ver: "v3.0.0", Value: 1}, {Op: "findstr", S: "showme-v2.1.0"}, {Op: "add", Type: "showme", Ver: "v2.0.0", Value: 2}, {Op: "findstr", S: "showme-v2.1.0"}, {Op: "add", Type: "showme", Ver: "v2.2.0-rc.1", Value: 3}, {Op: "findstr", S: "showme-v2.1.0"}, {Op: "add", Type: "showme", Ver: "v2.2.0", Value: 4}, {Op: "findstr", S: "showme-v2.1.0"}},
+	)
 	for _, ops := range corpus {
 		for _, size := range []int{10, 0} {
 			runSet(res, cases, size, ops, true)
@@ -428,6 +434,54 @@ func main() {
 		} else {
 			res.Dist("histories_cache_on")
 		}
+	}
+
+	// dense histories over a tiny universe: 1-2 types x majors 1..3 x minors 0..2 (+ a prerelease), >= 40 ops, and the
+	// next operation often reuses the previous hint, so that "look up, add something that changes the answer, look up the
+	// very same string again" (with nothing in between that would evict the one cache slot) happens in every history,
+	// with adds in descending and mixed major order.
+	dtypes := []string{"showme", "find-me"}
+	nd := o.Pick(250, 3000)
+	for i := 0; i < nd; i++ {
+		n := r.Range(40, 60)
+		nt := r.Range(1, 2)
+		var ops []setOp
+		val := uint64(0)
+		lt, lv := "", ""
+		for j := 0; j < n; j++ {
+			t := dtypes[r.Intn(nt)]
+			v := fmt.Sprintf("v%d.%d.0", r.Range(1, 3), r.Range(0, 2))
+			if r.Chance(1, 8) {
+				v += []string{"-rc.1", "-rc.2", "+m"}[r.Intn(3)]
+			}
+			switch k := r.Intn(10); {
+			case lt != "" && k < 4: // the very same hint again
+				t, v = lt, lv
+			case lt != "" && k < 6: // same type and major, another minor
+				t = lt
+				v = lv[:strings.Index(lv, ".")] + fmt.Sprintf(".%d.0", r.Range(0, 2))
+			}
+			lt, lv = t, v
+			switch k := r.Intn(20); {
+			case k < 8:
+				val++
+				ops = append(ops, setOp{Op: "add", Type: t, Ver: v, Value: val})
+			case k < 15:
+				ops = append(ops, setOp{Op: "find", Type: t, Ver: v})
+			case k < 18:
+				ops = append(ops, setOp{Op: "findstr", S: t + "-" + v})
+			case k < 19:
+				ops = append(ops, setOp{Op: "findtype", S: t})
+			default:
+				ops = append(ops, setOp{Op: "findtypestr", S: t})
+			}
+		}
+		size := 10
+		if r.Chance(1, 10) {
+			size = 0
+		}
+		runSet(res, cases, size, ops, i%o.Pick(1, 2) == 0)
+		res.Dist("dense_histories")
 	}
 
 	res.ModelCases = cases.Len()
